@@ -227,6 +227,17 @@ def run(prop, tier):
                                      'counterexample must be replayed by hand\n%s' % (res.violated, label, res.out[-3000:]))
             raise vlib.Undecided('TLC failed on %s: %s' % (label, res.error))
         ck.add_states(res, label)
+    # ---- liveness (no state constraint, weak fairness) and refinement of the ideal dealing functionality
+    live_cfgs = [('qual n=3 Byzantine dealer, 1 broadcast, slack', consts(3, 1, [0], [0], 1, 1, 1)),
+                 ('joint-feldman n=3 one Byzantine, 1 private/receiver', consts(3, 1, [0, 1, 2], [0], 0, 1, 0))]
+    if tier == 'thorough':
+        live_cfgs.append(('qual n=3 Byzantine dealer, 2 broadcasts + 1 private/receiver', consts(3, 1, [0], [0], 2, 1, 0)))
+    for label, c in live_cfgs:
+        res = vlib.tlc(SPEC, 'DKGNet', vlib.cfg(c, spec='FairSpec', invariants=['MappingIndependent'], properties=['Termination', 'RefinesIdeal']),
+                       timeout=3000, name='live')
+        if not res.ok:
+            raise vlib.Undecided('liveness / refinement check failed on %s: %s %s' % (label, res.violated, res.error))
+        ck.cov.setdefault('liveness_refinement_runs', []).append({'config': label, 'distinct_states': res.distinct, 'wall_s': round(res.wall, 1)})
     # ---- NEG
     neg = 0
     for fix1, fix2, expect in [(False, True, 'D1'), (True, False, 'D2')]:
